@@ -14,7 +14,9 @@ def bits (x : Union) (ss : List Text) : String :=
   String.ofList (ss.map fun s => if XsdRe.matchB x s then '1' else '0')
 
 /--
-* `undox <text>` / `undoxuu <text>` → `ok <text>` | `crash ValueError`
+* `undox <text>` → `ok <text>` | `crash ValueError`
+* `greenery <text>` → `ok <text>` | `err parse` | `crash <what>` (`_render_pattern_for_greenery`)
+* `escanchors <text>` → `ok <text>` (`_escape_carets_and_dollars_rendered_by_greenery`)
 * `translate <text>` → `ok <text>` | `err parse` | `err nonxml <code>` | `crash <what>`
 * `read <text>` → `ok <tree>` | `err <kind>`
 * `match <pattern text> <texts>` → `ok <bits>` (one `0`/`1` per text) | `err <kind>`
@@ -23,9 +25,17 @@ def handle : List String → Option String
   | ["undox", t] => do
     let t ← Text.dec t
     some (showUndo (undoX Gen.Xsd.hexClassX t))
-  | ["undoxuu", t] => do
+  | ["greenery", t] => do
     let t ← Text.dec t
-    some (showUndo (undoXuU Gen.Xsd.hexClassXuU t))
+    some (match renderForGreenery Gen.Xsd.grnLiteral Gen.Xsd.grnRange t with
+      | .ok r => "ok " ++ Text.enc r
+      | .parseErr _ => "err parse"
+      | .nonXml c => "err nonxml " ++ toString c
+      | .crashParse _ => "crash parse"
+      | .crashFormattedValue => "crash formatted-value")
+  | ["escanchors", t] => do
+    let t ← Text.dec t
+    some ("ok " ++ Text.enc (escAnchors false t))
   | ["translate", t] => do
     let t ← Text.dec t
     some (match translate Gen.Xsd.xsdLiteral Gen.Xsd.xsdRange t with
